@@ -279,6 +279,71 @@ def run(ctx):
         else:
             ctx.violation(Finding('R-TFLAGORDER', 'cmaqfiles/_ioapi.py', 'ioapi_base.updatetflag', gts[0], 'getTimes() is called while the old TFLAG still exists: it decodes the old flags, so a requested start '
                                   'date / step is ignored and SDATE, STIME, TSTEP and TFLAG disagree afterwards'))
+    # ---- R-DIVMODPAIR: whole years and the fraction of a year come from one floor division (// 1 with % 1)
+    ctx.rule('R-DIVMODPAIR', 'getTimes: the year part of a fractional-year offset is its floor when the day part is its remainder modulo 1')
+    gt_ = fm.func('PseudoNetCDFFile.getTimes')
+    wgt_ = 'src/PseudoNetCDF/%s PseudoNetCDFFile.getTimes' % FILES
+    rem = [st for st in iter_stmts(gt_.body) if isinstance(st, ast.Assign) and any(isinstance(b, ast.BinOp) and isinstance(b.op, ast.Mod) and norm(b.right) == '1' for b in ast.walk(st.value))]
+    if not rem:
+        ctx.undec('R-DIVMODPAIR', 'year/day split', wgt_, 'no remainder modulo 1 found')
+    for st in rem:
+        modn = [b for b in ast.walk(st.value) if isinstance(b, ast.BinOp) and isinstance(b.op, ast.Mod) and norm(b.right) == '1'][0]
+        x = norm(modn.left)
+        # the sibling statement that takes the integer part of the same x
+        sib = [s2 for s2 in iter_stmts(gt_.body) if isinstance(s2, ast.Assign) and s2 is not st and abs(s2.lineno - st.lineno) <= 3 and x in norm(s2.value)
+               and any(isinstance(c, ast.Call) and isinstance(c.func, ast.Attribute) and c.func.attr == 'astype' for c in ast.walk(s2.value))]
+        if not sib:
+            ctx.undec('R-DIVMODPAIR', x, wgt_, 'integer part of %s not found next to its remainder' % x)
+            continue
+        t = norm(sib[0].value)
+        if ('%s // 1' % x) in t or ('np.floor(%s)' % x) in t:
+            ctx.ok('R-DIVMODPAIR', x, wgt_, '%s ; %s' % (norm(sib[0])[:50], norm(st)[:40]))
+        else:
+            ctx.violation(Finding('R-DIVMODPAIR', FILES, 'PseudoNetCDFFile.getTimes', sib[0], 'the integer part of %s is taken by truncation (%s) while the fractional part is %s %% 1 (floor): for times before the '
+                                  'reference date the two do not add up (-0.25 year -> year 0 + 0.75 year instead of year -1 + 0.75)' % (x, t[:40], x)))
+    # ---- R-PERSTEP: every time flag is decoded with its own year
+    ctx.rule('R-PERSTEP', 'getTimes (TFLAG branch): each step is built from its own YYYY and day; no element [0] of the per-step arrays stands for all steps')
+    tb = [st for st in iter_stmts(gt_.body) if isinstance(st, ast.If) and "'TFLAG' in self.variables" in norm(st.test)]
+    if not tb:
+        ctx.undec('R-PERSTEP', 'TFLAG branch', wgt_, 'branch not found')
+    else:
+        body = tb[0].body
+        perstep = set()
+        for st in iter_stmts(body):
+            if isinstance(st, ast.Assign) and isinstance(st.targets[0], ast.Name):
+                if "['TFLAG']" in norm(st.value) or any(isinstance(n, ast.Name) and n.id in perstep for n in ast.walk(st.value)):
+                    if not (isinstance(st.value, ast.Subscript) and isinstance(st.value.slice, ast.Constant)):
+                        perstep.add(st.targets[0].id)
+        firsts = [n for st in iter_stmts(body) for n in ast.walk(st) if isinstance(n, ast.Subscript) and isinstance(n.value, ast.Name) and n.value.id in perstep - set(['out'])
+                  and isinstance(n.slice, ast.Constant) and n.slice.value in (0, -1)]
+        if firsts:
+            ctx.violation(Finding('R-PERSTEP', FILES, 'PseudoNetCDFFile.getTimes', api.stmt_of(firsts[0]), '%s stands for every step although %s is a per-step array: flags that cross a year end (or any boundary where it '
+                                  'changes) are decoded with the first step\'s value' % (norm(firsts[0]), firsts[0].value.id)))
+        else:
+            ctx.ok('R-PERSTEP', 'TFLAG branch', wgt_, 'per-step arrays %s are only used element-wise' % sorted(perstep))
+    # ---- R-FENCEPOST: a mean step is (last - first) / (count - 1)
+    ctx.rule('R-FENCEPOST', '(x[-1] - x[0]) is divided by the number of intervals, len(x) - 1')
+    nfp = 0
+    for rp_, m_ in ((FILES, fm), ('cmaqfiles/_ioapi.py', ctx.src.mod('cmaqfiles/_ioapi.py')), ('conventions/ioapi/_ioapi.py', ctx.src.mod('conventions/ioapi/_ioapi.py'))):
+        for q_, f_ in sorted(m_.functions.items()):
+            for n in ast.walk(f_):
+                if isinstance(n, ast.BinOp) and isinstance(n.op, (ast.Div, ast.FloorDiv)):
+                    diffs = [b for b in ast.walk(n.left) if isinstance(b, ast.BinOp) and isinstance(b.op, ast.Sub) and isinstance(b.left, ast.Subscript) and isinstance(b.right, ast.Subscript)
+                             and norm(b.left.value) == norm(b.right.value) and norm(b.left.slice) == '-1' and norm(b.right.slice) == '0']
+                    if not diffs:
+                        continue
+                    x = norm(diffs[0].left.value)
+                    den = norm(n.right)
+                    cnt = [c for c in ('len(%s)' % x, '%s.size' % x, '%s.shape[0]' % x) if c in den]
+                    if not cnt:
+                        continue
+                    nfp += 1
+                    if ('%s - 1' % cnt[0]) in den:
+                        ctx.ok('R-FENCEPOST', '%s@%d' % (q_, n.lineno), 'src/PseudoNetCDF/%s %s' % (rp_, q_), norm(n)[:70])
+                    else:
+                        ctx.violation(Finding('R-FENCEPOST', rp_, q_, api.stmt_of(n), 'the span %s[-1] - %s[0] covers %s - 1 intervals but is divided by %s: the mean step is too short (6 hourly steps give TSTEP 005000)' % (
+                            x, x, cnt[0], den)))
+    ctx.floor('mean-step computations', nfp, 1)
     # ---- R-TZDROP
     n = check_tzdrop(ctx, fm, 'PseudoNetCDFFile.date2num')
     ctx.floor('tz drop sites', n, 1)
